@@ -200,7 +200,7 @@ func rowIDFlowRule(c *Ctx, rule string) {
 			if sl, ok := src.(*ssa.Slice); ok {
 				src = sl.X
 			}
-			if !isCursorKey(src) {
+			if !isCursorKey(src) && !boundToCursorKey(c, src) {
 				return
 			}
 			n++
@@ -236,6 +236,29 @@ func rowIDFlowRule(c *Ctx, rule string) {
 							continue
 						}
 						bad, badAt = "passed to "+shortName(nm), u
+					case *ssa.Return:
+						// a decoding helper (`decodeTempKey(k) (valueIdx, rowID, err)`) hands the id to its callers: follow the
+						// result at every call site. A helper that is also used as a function value has callers that are
+						// not seen: where the id goes is not known.
+						h := x.Parent()
+						if c.usedAsValue(h) {
+							bad, badAt = "returned by "+safeFname(h)+", which is also used as a function value,", u
+							continue
+						}
+						for idx, rv := range x.Results {
+							if rv != v {
+								continue
+							}
+							for _, g := range c.w.ModFuncs {
+								allInstrs(g, func(j ssa.Instruction) {
+									if hc, ok := j.(*ssa.Call); ok && calleeFunc(&hc.Call) == h {
+										if res := resultValue(hc, idx); res != nil {
+											follow(res)
+										}
+									}
+								})
+							}
+						}
 					case *ssa.Phi:
 						bad, badAt = "carried into the next iteration (phi)", u
 					case *ssa.BinOp:
@@ -258,6 +281,29 @@ func rowIDFlowRule(c *Ctx, rule string) {
 	if n == 0 {
 		c.r.undecided(rule, "<vacuity>", "no row id decoded from a cursor key found in the big writer's flush")
 	}
+}
+
+// boundToCursorKey: src is a parameter of a decoding helper and some call site in the module passes a cursor key (or a
+// re-slice of one) for it: the helper decodes temp keys. A helper of a helper is followed once more.
+func boundToCursorKey(c *Ctx, src ssa.Value) bool {
+	var bound func(v ssa.Value, depth int) bool
+	bound = func(v ssa.Value, depth int) bool {
+		p, ok := peel(v).(*ssa.Parameter)
+		if !ok || depth > 1 || p.Parent() == nil {
+			return false
+		}
+		for _, bs := range c.bindingSites(p.Parent(), p) {
+			arg := bs.arg
+			if sl, ok := arg.(*ssa.Slice); ok {
+				arg = sl.X
+			}
+			if isCursorKey(arg) || bound(arg, depth+1) {
+				return true
+			}
+		}
+		return false
+	}
+	return bound(src, 0)
 }
 
 // cacheSitesRule: Cache.Get / Cache.Put are invoked only from eval methods of the expression types, or from a helper
